@@ -142,6 +142,8 @@ pub struct Ctx {
     h3_calls: u32,
     pub run_index: u64,
     pub notes: Vec<String>,
+    /// Calls of `spinning()` since the last task poll.
+    spin: u32,
 }
 
 pub type Shared = Arc<Mutex<Ctx>>;
@@ -290,6 +292,21 @@ pub fn class_violation(
     }
 }
 
+/// To be called by harness loops that may go round without ever suspending (e.g. a receive call that
+/// keeps returning a non-final error): true once the loop has gone round 20 000 times within one task
+/// poll — the run is then aborted ("livelock") and the caller must leave its loop.
+pub fn spinning() -> bool {
+    let over = try_with(|c| {
+        c.spin += 1;
+        c.spin > 20_000
+    })
+    .unwrap_or(false);
+    if over {
+        abort_run("a harness loop went round 20000 times without suspending (endless stream of immediate results)");
+    }
+    over
+}
+
 pub fn has_violation() -> bool {
     with(|c| c.violation.is_some())
 }
@@ -368,6 +385,7 @@ fn hook_before_poll(id: u64) -> bool {
             return Some(false);
         }
         c.polls += 1;
+        c.spin = 0;
         if c.polls > c.max_polls {
             c.aborted = Some(format!("poll budget of {} exhausted", c.max_polls));
             if let Some(w) = &c.root_waker {
@@ -722,6 +740,7 @@ impl<F: Future<Output = ()>> Future for Root<F> {
         }
         with(|c| {
             c.polls += 1;
+            c.spin = 0;
             c.sched_hash = mix(c.sched_hash, u64::MAX);
         });
         let res = self.fut.as_mut().poll(cx);
@@ -784,6 +803,7 @@ where
         h3_calls: 0,
         run_index: rc.index,
         notes: Vec::new(),
+        spin: 0,
     };
     let shared: Shared = Arc::new(Mutex::new(ctx));
     CURRENT.with(|c| *c.borrow_mut() = Some(shared.clone()));
